@@ -5,8 +5,9 @@ re-registration, and its preservation.
 -/
 namespace OPM.SaveConc
 
-/-- the repaired system: lock from check to commit, version continues across re-registration -/
-def fixed : Cfg := { locked := true, resetOnRegister := false }
+/-- the repaired system: lock from check to commit, version continues across re-registration; with or without the
+additional fast-path check in front of the lock -/
+def fixed (precheck : Bool := false) : Cfg := { locked := true, resetOnRegister := false, precheck := precheck }
 
 /-- Invariant (relative to the initial version `v0`). -/
 structure Good (v0 : Nat) (s : State) : Prop where
@@ -142,7 +143,7 @@ theorem find_id {l : List Req} {r : Req} {id : Nat} (hf : l.find? (·.id == id) 
   simpa using this
 
 /-- The invariant is preserved by every enabled step of the repaired system. -/
-theorem good_step {v0 : Nat} {s s' : State} {e : Ev} (g : Good v0 s) (h : step fixed s e = some s') :
+theorem good_step {v0 : Nat} {p : Bool} {s s' : State} {e : Ev} (g : Good v0 s) (h : step (fixed p) s e = some s') :
     Good v0 s' := by
   cases e with
   | start id base =>
@@ -162,10 +163,17 @@ theorem good_step {v0 : Nat} {s s' : State} {e : Ev} (g : Good v0 s) (h : step f
             cases hs : s.awaiting with
             | nil => exact absurd hs hnil
             | cons a l => simp
-          simp only [hne, if_true, Option.some.injEq] at h
-          subst h
-          exact { one := g.one, cur := g.cur, away := g.away, free := fun e => absurd e hnil, old := g.old,
-                  nodup := g.nodup, count := g.count }
+          simp only [hne, if_true] at h
+          by_cases hp : (p && decide (base ≠ s.version)) = true
+          · simp only [hp, if_true, Option.some.injEq] at h
+            subst h
+            exact { one := g.one, cur := g.cur, away := g.away, free := g.free, old := g.old, nodup := g.nodup,
+                    count := g.count }
+          · have hp' : (p && decide (base ≠ s.version)) = false := by simpa using hp
+            simp only [hp', Bool.false_eq_true, if_false, Option.some.injEq] at h
+            subst h
+            exact { one := g.one, cur := g.cur, away := g.away, free := fun e => absurd e hnil, old := g.old,
+                    nodup := g.nodup, count := g.count }
   | reply id ok =>
     simp only [step, fixed] at h
     split at h
